@@ -217,14 +217,22 @@ def run_point(kind, gk, mi, k, pre):
     return not bad, obs
 
 
-def run_user_generator(k, overwrite=False):
-    """a third-party generator using gen_file whose callback opens the target itself and fails after k writes"""
+def run_user_generator(k, overwrite=False, pre=False):
+    """a third-party generator using gen_file whose callback opens the target itself and fails after k writes (k = -1: before opening);
+    pre: a complete output of an earlier run exists and is regenerated with overwrite"""
     from textx.generators import gen_file
 
     d = fresh_dir("user")
     out = os.path.join(d, "x.out")
+    OLD = "old line 0\nold line 1\nold line 2\nold line 3\n"
+    if pre:
+        with open(out, "w") as f:
+            f.write(OLD)
+        os.utime(out, ns=(10 ** 18, 10 ** 18))
 
     def cb():
+        if k < 0:
+            raise Fail("callback failure before the target is opened")
         with open(out, "w") as f:
             for i in range(3):
                 if i == k:
@@ -237,13 +245,14 @@ def run_user_generator(k, overwrite=False):
             bad.append(("no failure",))
     except Fail:
         pass
-    if k < 3 and os.path.exists(out):
-        bad.append(("partial file left by a gen_file callback", open(out).read()))
+    left = open(out).read() if os.path.exists(out) else None
+    if k < 3 and left is not None and not (pre and left == OLD):
+        bad.append(("partial file left by a gen_file callback", left))
     done = []
     gen_file("in.x", out, lambda: (done.append(1), open(out, "w").write("complete"))[1], overwrite=False)
-    if k < 3 and not done:
+    if k < 3 and not done and not (pre and left == OLD):
         bad.append(("next run skipped the file",))
-    return not bad, {"user_generator_fail_after_writes": k, "overwrite": overwrite, "failures": bad}
+    return not bad, {"user_generator_fail_after_writes": k, "overwrite": overwrite, "pre_existing": pre, "left_behind": left, "failures": bad}
 
 
 def work(arg):
@@ -274,10 +283,12 @@ def run(ctx):
     for k in range(4):
         for ow in (False, True):
             pts.append(("user", k, ow))
+    for k in range(-1, 4):
+        pts.append(("user", k, True, True))
     ctx.pmap(work, [pts[i:i + 6] for i in range(0, len(pts), 6)])
     return {
         "rule": "case = (generator, input, index k of the failing call on the output file among open/write/flush/close, target pre-existing or not); k ranges "
-                "over every call counted by the dry run; plus a gen_file user callback (target not existing, with and without overwrite) failing after 0..3 writes; every case is a distinct crash point",
+                "over every call counted by the dry run; plus a gen_file user callback (target not existing, with and without overwrite; target existing and complete, with overwrite) failing before opening / after 0..3 writes; every case is a distinct crash point",
         "exhaustive": True, "calls_per_scenario": totals, "same_in_both_tiers": True,
     }, ["os.replace and os.remove are not failed"]
 
